@@ -5,6 +5,9 @@
 From Coq Require Import ZArith List Bool String.
 Import ListNotations.
 From Verif Require Import Model.Threads Proofs.ThreadsProofs Gen.SharedState.
+(* translator tie (bld-misc): required here, imported where the source theorem starts (names of Model/PyMini.v such as
+   exec / run / eval would shadow those of Model/Threads.v above) *)
+From Verif Require Base.PyValue Model.PyMini Model.PrimsApi Gen.SrcParams Proofs.SrcParams Proofs.SrcParamsC20.
 Open Scope Z_scope.
 
 (* If the inventory of process-wide cells is empty and no parsed statement object is both
@@ -181,3 +184,56 @@ Theorem C20_keyed_cells_isolation_of_this_tree : forall (sched : list nat) (qs :
     = kserial (map (agg_emit (keyed_cells_shared query_time_shared_cells)) gs).
 Proof. intros. apply keyed_cells_isolation. exact C20_inventory_empty. Qed.
 Print Assumptions C20_keyed_cells_isolation_of_this_tree.
+
+(* ------------------------------------------------------------------ *)
+(* Tie by translation (see harness/PYMINI.md): the premise "a connection shared by threads keeps nothing between or
+   during two executions" from the CURRENT source.  Gen/SrcParams.v is regenerated by this check, too (c20.py generate):
+   Connection.execute / cursor / parse / compile, the leading `self.<attr> = ...` statements of Connection.__init__ and
+   compiler.compile are PyMini terms; Proofs/SrcParams.v proves what they compute (the C09 theorems) and
+   Proofs/SrcParamsC20.v draws the corollary below.  For EVERY attribute dictionary [flds] of a connection whose
+   `cursor` is the bound method: whenever execute / cursor / parse / compile return, the dictionary afterwards IS the
+   one before - no statement text, compiled statement, compiler or cursor is stored on the connection, nothing is
+   removed or replaced - execute returns what execute of the cursor made by THIS call returns; a new connection has
+   exactly the attributes tables / options / errors (no slot for a cache); compiler.compile makes a new Compiler for
+   every compilation.  A statement cache on the connection (seeded C20-m7), a compiler kept on it (C20-m2), a cursor
+   kept on it (C10-m2), a busy flag on it (C20-m9) each change one of the generated terms and this obligation no
+   longer checks. *)
+Import Verif.Base.PyValue Verif.Model.PyMini Verif.Model.PrimsApi Verif.Gen.SrcParams Verif.Proofs.SrcParams Verif.Proofs.SrcParamsC20.
+Open Scope string_scope.
+
+Theorem C20_source_no_connection_cache : forall (call_ref : nat -> list pv -> pv) (msg : string -> list pv -> pv)
+    (kcur kC kK kN kP kF : nat) (flds : env) (q p dsn ctx st prm : pv),
+  PyMini.lookup "cursor" flds = Some (PRef kcur) ->
+  ref_of refs "beanquery.cursor.Cursor" = Some kC ->
+  ref_of refs "beanquery.compiler.Compiler" = Some kK ->
+  ref_of refs "beanquery.tables.NullTable" = Some kN ->
+  ref_of refs "beanquery.parser.parse" = Some kP ->
+  ref_of refs "beanquery.compiler.compile" = Some kF ->
+  (forall flds' r, call_method call_ref (prim_api params_lib msg) connection_execute flds [q; p] = Ok (flds', r) ->
+     flds' = flds /\
+     exists cur, do_call call_ref (PRef kcur) [] = Ok cur /\ opaque_method msg "call:execute" [cur; q; p] = Ok r) /\
+  (forall flds' c, call_method call_ref (prim_api params_lib msg) connection_cursor flds [] = Ok (flds', c) ->
+     flds' = flds /\ do_call call_ref (PRef kC) [PSelf] = Ok c) /\
+  (forall flds' r, call_method call_ref (prim_api params_lib msg) connection_parse flds [q] = Ok (flds', r) -> flds' = flds) /\
+  (forall flds' r, call_method call_ref (prim_api params_lib msg) connection_compile flds [q] = Ok (flds', r) -> flds' = flds) /\
+  (forall flds0 r, call_method call_ref (prim_api params_lib msg) connection_init_state [] [dsn] = Ok (flds0, r) ->
+     map fst flds0 = ["tables"; "options"; "errors"]) /\
+  call_function call_ref (prim_api params_lib msg) compiler_compile_fn [ctx; st; prm] =
+    PyMini.bind (do_call call_ref (PRef kK) [ctx]) (fun c => opaque_method msg "call:compile" [c; st; prm]).
+Proof. exact no_connection_cache. Qed.
+Print Assumptions C20_source_no_connection_cache.
+
+(* Non-vacuity: the numbers of the generated refs table; a connection with three attributes and its bound `cursor`
+   method (reference 40), a cursor factory that answers and a cursor whose execute answers: the translated
+   Connection.execute returns that answer and the attribute dictionary is the one passed in. *)
+Example C20_source_example :
+  let flds := [("tables", PNone); ("options", PNone); ("errors", PList []); ("cursor", PRef 40)] in
+  let call_ref := fun (k : nat) (args : list pv) => match k with 40%nat => PInt 7 | _ => PNone end in
+  let msg := fun (name : string) (args : list pv) =>
+    match args with [PV (VInt 7); _; _] => PInt 99 | _ => PNone end in
+  ref_of refs "beanquery.cursor.Cursor" = Some 4%nat /\ ref_of refs "beanquery.compiler.Compiler" = Some 2%nat /\
+  ref_of refs "beanquery.tables.NullTable" = Some 3%nat /\
+  call_method call_ref (prim_api params_lib msg) connection_execute flds [PInt 1; PNone] = Ok (flds, PInt 99) /\
+  (exists nt, call_method call_ref (prim_api params_lib msg) connection_init_state [] [PNone] =
+     Ok ([("tables", pdict [(PV (VStr []), nt)]); ("options", pdict []); ("errors", PList [])], PNone)).
+Proof. repeat split. eexists. reflexivity. Qed.
